@@ -203,39 +203,13 @@ Proof. exact sem_seq_exec_step. Qed.
 
 (* non-vacuity of the semaphore instance, Wait included: with the kinds of the real table, a blocked
    Acquire waits on the condition variable, another goroutine releases, the waiter re-acquires and succeeds *)
-Definition m11 : metric := mkM 1 1.
-Definition sem_blocking_trace : list (action sop sret) :=
-  [Inv sop sret 0 (STry m11); Acq sop sret 0; Body sop sret 0; Rel sop sret 0; Ret sop sret 0 (SBool true); Inv sop sret 1 (SAcquire m11 1); Acq sop sret 1; Body sop sret 1; Wait sop sret 1; Inv sop sret 0 (SRelease m11); Acq sop sret 0; Body sop sret 0; Rel sop sret 0; Ret sop sret 0 (SOut []); Acq sop sret 1; Body sop sret 1; Rel sop sret 1; Ret sop sret 1 (SBool true)].
-
 Example C28_semaphore_blocking_acquire_trace :
   skind checked_table (SAcquire m11 1) = KExcl /\ skind checked_table SProcessing = KExcl /\
   exists c, exec sstate sop sret sloc sem_linit sem_mstep sem_fin sem_waits sem_wstep (skind checked_table)
                  (mzero, mkM 1 10) sem_blocking_trace c.
 Proof.
   split; [vm_compute; reflexivity|]. split; [vm_compute; reflexivity|].
-  eexists. unfold sem_blocking_trace.
-  change [Inv sop sret 0 (STry m11); Acq sop sret 0; Body sop sret 0; Rel sop sret 0; Ret sop sret 0 (SBool true); Inv sop sret 1 (SAcquire m11 1); Acq sop sret 1; Body sop sret 1; Wait sop sret 1; Inv sop sret 0 (SRelease m11); Acq sop sret 0; Body sop sret 0; Rel sop sret 0; Ret sop sret 0 (SOut []); Acq sop sret 1; Body sop sret 1; Rel sop sret 1; Ret sop sret 1 (SBool true)]
-    with (((((((((((((((((([] ++ [Inv sop sret 0 (STry m11)]) ++ [Acq sop sret 0]) ++ [Body sop sret 0]) ++ [Rel sop sret 0]) ++ [Ret sop sret 0 (SBool true)]) ++ [Inv sop sret 1 (SAcquire m11 1)]) ++ [Acq sop sret 1]) ++ [Body sop sret 1]) ++ [Wait sop sret 1]) ++ [Inv sop sret 0 (SRelease m11)]) ++ [Acq sop sret 0]) ++ [Body sop sret 0]) ++ [Rel sop sret 0]) ++ [Ret sop sret 0 (SOut [])]) ++ [Acq sop sret 1]) ++ [Body sop sret 1]) ++ [Rel sop sret 1]) ++ [Ret sop sret 1 (SBool true)])%list.
-  assert (Hk : forall o, skind checked_table o = KExcl) by (intros []; vm_compute; reflexivity).
-  repeat (eapply e_snoc); [apply e_nil| | | | | | | | | | | | | | | | | |].
-  - apply s_inv; reflexivity.
-  - eapply s_acq_excl; [reflexivity | apply Hk | intros t' [o' [l' H]]; unfold upd in H; simpl in H; destruct t' as [|[|t']]; simpl in H; discriminate].
-  - eapply s_body; [reflexivity|reflexivity|reflexivity|vm_compute; reflexivity].
-  - eapply s_rel; [reflexivity|vm_compute; reflexivity].
-  - eapply s_ret; reflexivity.
-  - apply s_inv; reflexivity.
-  - eapply s_acq_excl; [reflexivity | apply Hk | intros t' [o' [l' H]]; unfold upd in H; simpl in H; destruct t' as [|[|t']]; simpl in H; discriminate].
-  - eapply s_body; [reflexivity|reflexivity|reflexivity|vm_compute; reflexivity].
-  - eapply s_wait; [reflexivity|reflexivity|reflexivity].
-  - apply s_inv; reflexivity.
-  - eapply s_acq_excl; [reflexivity | apply Hk | intros t' [o' [l' H]]; unfold upd in H; simpl in H; destruct t' as [|[|t']]; simpl in H; discriminate].
-  - eapply s_body; [reflexivity|reflexivity|reflexivity|vm_compute; reflexivity].
-  - eapply s_rel; [reflexivity|vm_compute; reflexivity].
-  - eapply s_ret; reflexivity.
-  - eapply s_acq_excl; [reflexivity | apply Hk | intros t' [o' [l' H]]; unfold upd in H; simpl in H; destruct t' as [|[|t']]; simpl in H; discriminate].
-  - eapply s_body; [reflexivity|reflexivity|reflexivity|vm_compute; reflexivity].
-  - eapply s_rel; [reflexivity|vm_compute; reflexivity].
-  - eapply s_ret; reflexivity.
+  apply sem_blocking_trace_exec. intros []; vm_compute; reflexivity.
 Qed.
 
 Example C28_wlru_kinds_from_table :
